@@ -218,6 +218,20 @@ Theorem value_depends_only_on :
 Proof. exact same_inputs_same_value_lemma. Qed.
 Print Assumptions value_depends_only_on.
 
+(** several requests falling due at one height: all fulfilments of one block carry the same
+    header, and each value is computed from its OWN requester's address (and its own oracle
+    seed) - no number is shared between the requests of a block *)
+Theorem same_block_values_from_own_addresses :
+  forall (sha : hin -> Z) (P : Z -> bool) (steps : list step) (ev1 ev2 : event),
+    sane P [] steps -> In ev1 (events sha init steps) -> In ev2 (events sha init steps) ->
+    e_block ev1 = e_block ev2 ->
+    let t := e_time ev1 in let a := e_app ev1 in
+    e_time ev2 = t /\ e_app ev2 = a
+    /\ e_val ev1 = rand_val sha t a (snd (e_rid ev1)) (e_seed ev1)
+    /\ e_val ev2 = rand_val sha t a (snd (e_rid ev2)) (e_seed ev2).
+Proof. exact same_block_own_address_lemma. Qed.
+Print Assumptions same_block_values_from_own_addresses.
+
 (** a fulfilment's header is the header of the block it happens in *)
 Theorem fulfilment_carries_its_block_header :
   forall (sha : hin -> Z) (P : Z -> bool) (used : list Z) (s : state) (st : step) (ev : event),
@@ -253,6 +267,17 @@ Theorem model_views_ok :
             (obs_of (run sha init steps) code ids ctxs facts) = true.
 Proof. exact model_views_ok_lemma. Qed.
 Print Assumptions model_views_ok.
+
+(** ** the compressed case format loses nothing
+
+    The driver sends compressed cases ([Check.ccase]: unchanged queue / oracle views omitted,
+    reads as differences, well-formed value strings as their numerators); the check evaluates
+    [check_case] on [expand] of them.  Every sequence of observations has a compressed form that
+    expands back to exactly itself. *)
+Theorem compressed_cases_lossless :
+  forall (l : list (step * obs)), expand obs0 (compress obs0 l) = l.
+Proof. intros l. exact (expand_compress l obs0). Qed.
+Print Assumptions compressed_cases_lossless.
 
 (** ** the hypotheses are needed, and are satisfiable *)
 
@@ -315,7 +340,9 @@ Example c18_nonvacuous :
                           (enq init 1 (new_req init 1 101 true (Some 7))) Pending
                           (skipn 2 demo_pre ++ demo_req :: demo_post) = Fulfilled ev
                  /\ e_seed ev = Some 5 /\ e_block ev = 3)
-  /\ nth_begin (Z.to_nat 2) (skipn 1 demo_pre ++ demo_req :: demo_post) = Some (1700000003, 2).
+  /\ nth_begin (Z.to_nat 2) (skipn 1 demo_pre ++ demo_req :: demo_post) = Some (1700000003, 2)
+  /\ (exists ev1 ev2, filter (fun ev => e_block ev =? 4) (events toy_sha init steps) = [ev1; ev2]
+                      /\ snd (e_rid ev1) <> snd (e_rid ev2) /\ e_val ev1 <> e_val ev2).
 Proof.
   cbv zeta.
   split; [simpl; intuition (try discriminate; try lia)|].
@@ -326,5 +353,6 @@ Proof.
   split; [vm_compute; reflexivity|].
   split; [vm_compute; reflexivity|].
   split; [eexists; split; [vm_compute; reflexivity|]; split; reflexivity|].
-  vm_compute. reflexivity.
+  split; [vm_compute; reflexivity|].
+  eexists. eexists. split; [vm_compute; reflexivity|]. split; vm_compute; intros H; discriminate H.
 Qed.
